@@ -460,6 +460,8 @@ fn queries() -> impl Strategy<Value = CliCase> {
         Just("2 ** 3".to_string()),
         Just("1 / 0".to_string()),
         Just("(1 m + 1 s) (2) (1 / 0) (3 km)".to_string()),
+        Just("(NOT speed) (2 m)".to_string()),
+        Just("(1) (OR) (2) (zzzzqq xqxq) (3)".to_string()),
         Just("1 kg to m".to_string()),
         Just("round(1, 2, 3)".to_string()),
         Just("nosuchfunction(1)".to_string()),
@@ -503,7 +505,10 @@ fn queries() -> impl Strategy<Value = CliCase> {
                 1 => Just("1 m + 1 s".to_string()),
                 1 => Just("2 ^ 64".to_string()),
                 1 => Just("1 / 3".to_string()),
-            ], 4..=40).prop_map(|v| v.iter().map(|t| format!("({})", t)).collect::<Vec<_>>().join(" ")),
+                // failures of every kind the evaluator knows, lookups included: a phrase that is not a well-formed
+                // search expression, a phrase that finds nothing, a function that does not exist
+                1 => prop_oneof![Just("NOT speed"), Just("OR"), Just("speed OR"), Just("2 * NOT"), Just("AND AND"), Just("zzzzqq xqxq"), Just("2 * nosuchthingever"), Just("nosuch(1)"), Just("round(1, 2, 3)"), Just("1 kg to m"), Just("0 ^ -1"), Just("2 ^ 0.5"), Just("1e99999999999"), Just("speed of light")].prop_map(|s| s.to_string()),
+            ], 2..=40).prop_map(|v| v.iter().map(|t| format!("({})", t)).collect::<Vec<_>>().join(" ")),
     ]
     .prop_map(|query| CliCase { query })
 }
